@@ -1,7 +1,83 @@
-//! Everything else.
+//! Montgomery / X25519 (C07), Ristretto (C06), Ed25519 (C08, C09, C13), meta ops.
 use crate::*;
+use curve25519_dalek::ristretto::CompressedRistretto;
+use curve25519_dalek::traits::{Identity, MultiscalarMul, VartimeMultiscalarMul};
+use ed25519_dalek::{Signature, Signer, SigningKey, Verifier, VerifyingKey};
+use sha2::{Digest, Sha512};
+use subtle::ConstantTimeEq;
 
-pub fn run(op: &str, _e: &Value, ctx: &mut Ctx) -> Result<Value, String> {
+pub fn ris_obs(p: &RistrettoPoint) -> Value {
+    json!({"c": jbytes(p.compress().as_bytes())})
+}
+fn set_ris(ctx: &mut Ctx, e: &Value, p: RistrettoPoint) -> Result<Value, String> {
+    ctx.set(&out_name(e)?, Reg::Ris(p));
+    Ok(json!({"ok": true, "r": ris_obs(&p)}))
+}
+fn set_ris_opt(ctx: &mut Ctx, e: &Value, p: Option<RistrettoPoint>) -> Result<Value, String> {
+    match p {
+        Some(p) => set_ris(ctx, e, p),
+        None => {
+            ctx.set(&out_name(e)?, Reg::None);
+            Ok(json!({"ok": false}))
+        }
+    }
+}
+fn ris_points(ctx: &Ctx, v: &Value) -> Result<Vec<RistrettoPoint>, String> {
+    v.as_array().ok_or("points")?.iter().map(|x| ris_arg(ctx, x)).collect()
+}
+fn scalars_of(ctx: &Ctx, v: &Value) -> Result<Vec<Scalar>, String> {
+    v.as_array().ok_or("scalars")?.iter().map(|x| sc_arg(ctx, x)).collect()
+}
+fn sc_bytes(v: &[Scalar]) -> Value {
+    Value::Array(v.iter().map(|s| jbytes(&s.to_bytes())).collect())
+}
+
+/// An RNG that returns a scripted byte string (for the rand_core constructors).
+struct ScriptRng(Vec<u8>, usize);
+impl rand_core::RngCore for ScriptRng {
+    fn next_u32(&mut self) -> u32 {
+        let mut b = [0u8; 4];
+        self.fill_bytes(&mut b);
+        u32::from_le_bytes(b)
+    }
+    fn next_u64(&mut self) -> u64 {
+        let mut b = [0u8; 8];
+        self.fill_bytes(&mut b);
+        u64::from_le_bytes(b)
+    }
+    fn fill_bytes(&mut self, dest: &mut [u8]) {
+        for d in dest.iter_mut() {
+            *d = self.0[self.1 % self.0.len()];
+            self.1 += 1;
+        }
+    }
+    fn try_fill_bytes(&mut self, dest: &mut [u8]) -> Result<(), rand_core::Error> {
+        self.fill_bytes(dest);
+        Ok(())
+    }
+}
+impl rand_core::CryptoRng for ScriptRng {}
+
+struct RecHasher(Vec<u8>);
+impl std::hash::Hasher for RecHasher {
+    fn finish(&self) -> u64 {
+        0
+    }
+    fn write(&mut self, bytes: &[u8]) {
+        self.0.extend_from_slice(bytes);
+    }
+}
+fn hash_bytes<T: std::hash::Hash>(t: &T) -> Vec<u8> {
+    let mut h = RecHasher(Vec::new());
+    t.hash(&mut h);
+    h.0
+}
+
+fn res_ok<T, E>(r: &Result<T, E>) -> bool {
+    r.is_ok()
+}
+
+pub fn run(op: &str, e: &Value, ctx: &mut Ctx) -> Result<Value, String> {
     match op {
         "reset" => {
             ctx.regs.clear();
@@ -13,10 +89,379 @@ pub fn run(op: &str, _e: &Value, ctx: &mut Ctx) -> Result<Value, String> {
             "avx2": std::is_x86_feature_detected!("avx2"),
             "ifma": std::is_x86_feature_detected!("avx512ifma") && std::is_x86_feature_detected!("avx512vl"),
             "tables": cfg!(feature = "tables"),
+            "ed_legacy": cfg!(feature = "ed_legacy"),
         })),
         "force_backend" => {
-            hook::set_forced_backend(uint(_e, "kind")? as u8);
+            hook::set_forced_backend(uint(e, "kind")? as u8);
             Ok(json!({}))
+        }
+        // ================= Montgomery / X25519 =====================================
+        "mont.mul" | "mont.mul_rev" | "mont.mul_assign" => {
+            let u = mont_arg(ctx, inp(e, 0)?)?;
+            let s = sc_arg(ctx, inp(e, 1)?)?;
+            let r = match op {
+                "mont.mul" => &u * &s,
+                "mont.mul_rev" => &s * &u,
+                _ => { let mut t = u; t *= &s; t }
+            };
+            Ok(json!({"u": jbytes(u.as_bytes()), "s": jbytes(&s.to_bytes()), "r": jbytes(r.as_bytes())}))
+        }
+        "mont.mul_clamped" => {
+            let u = mont_arg(ctx, inp(e, 0)?)?;
+            let r = u.mul_clamped(arr32(inp(e, 1)?)?);
+            Ok(json!({"u": jbytes(u.as_bytes()), "r": jbytes(r.as_bytes())}))
+        }
+        "mont.mul_base" => {
+            let s = sc_arg(ctx, inp(e, 0)?)?;
+            Ok(json!({"s": jbytes(&s.to_bytes()), "r": jbytes(MontgomeryPoint::mul_base(&s).as_bytes())}))
+        }
+        "mont.mul_base_clamped" => Ok(json!({"r": jbytes(MontgomeryPoint::mul_base_clamped(arr32(inp(e, 0)?)?).as_bytes())})),
+        "mont.mul_bits_be" => {
+            let u = mont_arg(ctx, inp(e, 0)?)?;
+            let bits: Vec<bool> = e["bits"].as_array().ok_or("bits")?.iter().map(|b| b.as_u64() == Some(1)).collect();
+            let r = u.mul_bits_be(bits.into_iter());
+            Ok(json!({"u": jbytes(u.as_bytes()), "r": jbytes(r.as_bytes())}))
+        }
+        "mont.to_edwards" => {
+            let u = mont_arg(ctx, inp(e, 0)?)?;
+            let r = u.to_edwards(uint(e, "sign")? as u8);
+            let name = out_name(e)?;
+            match r {
+                Some(p) => {
+                    ctx.set(&name, Reg::Ed(p));
+                    Ok(json!({"u": jbytes(u.as_bytes()), "ok": true, "r": ops_edwards::ed_obs(&p)}))
+                }
+                None => {
+                    ctx.set(&name, Reg::None);
+                    Ok(json!({"u": jbytes(u.as_bytes()), "ok": false}))
+                }
+            }
+        }
+        "mont.eq" => {
+            let a = mont_arg(ctx, inp(e, 0)?)?;
+            let b = mont_arg(ctx, inp(e, 1)?)?;
+            let ct: bool = a.ct_eq(&b).into();
+            Ok(json!({"a": jbytes(a.as_bytes()), "b": jbytes(b.as_bytes()), "ok": a == b, "ct": ct,
+                      "hash_eq": hash_bytes(&a) == hash_bytes(&b), "id": jbytes(MontgomeryPoint::identity().as_bytes())}))
+        }
+        "x.x25519" => {
+            let k = arr32(inp(e, 0)?)?;
+            let u = arr32(inp(e, 1)?)?;
+            Ok(json!({"r": jbytes(&x25519_dalek::x25519(k, u)), "base": jbytes(&x25519_dalek::X25519_BASEPOINT_BYTES)}))
+        }
+        "x.dh" => {
+            // typed Diffie-Hellman: kind in {ephemeral, reusable, static}; in = [secret bytes, their public bytes]
+            let sk = arr32(inp(e, 0)?)?;
+            let theirs = x25519_dalek::PublicKey::from(arr32(inp(e, 1)?)?);
+            let kind = e["kind"].as_str().unwrap_or("static");
+            let (pk, ss) = match kind {
+                "ephemeral" => {
+                    let s = x25519_dalek::EphemeralSecret::random_from_rng(ScriptRng(sk.to_vec(), 0));
+                    let pk = x25519_dalek::PublicKey::from(&s);
+                    (pk, s.diffie_hellman(&theirs))
+                }
+                "reusable" => {
+                    let s = x25519_dalek::ReusableSecret::random_from_rng(ScriptRng(sk.to_vec(), 0));
+                    let pk = x25519_dalek::PublicKey::from(&s);
+                    let a = s.diffie_hellman(&theirs);
+                    let b = s.clone().diffie_hellman(&theirs);
+                    if a.as_bytes() != b.as_bytes() {
+                        panic!("reusable secret gave two different shared secrets");
+                    }
+                    (pk, a)
+                }
+                _ => {
+                    let s = x25519_dalek::StaticSecret::from(sk);
+                    if s.to_bytes() != sk || s.as_bytes() != &sk {
+                        panic!("StaticSecret does not round-trip its bytes");
+                    }
+                    let pk = x25519_dalek::PublicKey::from(&s);
+                    (pk, s.diffie_hellman(&theirs))
+                }
+            };
+            Ok(json!({"pk": jbytes(pk.as_bytes()), "ss": jbytes(ss.as_bytes()), "contributory": ss.was_contributory(),
+                      "theirs": jbytes(theirs.as_bytes())}))
+        }
+        // ================= Ristretto =================================================
+        "ris.decompress" => {
+            let b = arr32(inp(e, 0)?)?;
+            set_ris_opt(ctx, e, CompressedRistretto(b).decompress())
+        }
+        "ris.from_slice" => {
+            let b = bytes_of(inp(e, 0)?)?;
+            let a = CompressedRistretto::from_slice(&b);
+            let t = CompressedRistretto::try_from(&b[..]);
+            if a.is_ok() != t.is_ok() {
+                panic!("from_slice and TryFrom disagree");
+            }
+            match a {
+                Ok(c) => {
+                    let mut o = set_ris_opt(ctx, e, c.decompress())?;
+                    o["len_ok"] = json!(true);
+                    Ok(o)
+                }
+                Err(_) => {
+                    ctx.set(&out_name(e)?, Reg::None);
+                    Ok(json!({"len_ok": false, "ok": false}))
+                }
+            }
+        }
+        "ris.basepoint" => set_ris(ctx, e, curve25519_dalek::constants::RISTRETTO_BASEPOINT_POINT),
+        "ris.basepoint_compressed" => Ok(json!({"r": jbytes(curve25519_dalek::constants::RISTRETTO_BASEPOINT_COMPRESSED.as_bytes()),
+                                               "id": jbytes(CompressedRistretto::identity().as_bytes())})),
+        "ris.identity" => set_ris(ctx, e, RistrettoPoint::identity()),
+        "ris.default" => set_ris(ctx, e, RistrettoPoint::default()),
+        "ris.from_uniform_bytes" => set_ris(ctx, e, RistrettoPoint::from_uniform_bytes(&arr64(inp(e, 0)?)?)),
+        "ris.hash_from_bytes" => set_ris(ctx, e, RistrettoPoint::hash_from_bytes::<Sha512>(&bytes_of(inp(e, 0)?)?)),
+        "ris.from_hash" => {
+            let mut h = Sha512::new();
+            h.update(bytes_of(inp(e, 0)?)?);
+            set_ris(ctx, e, RistrettoPoint::from_hash(h))
+        }
+        "ris.add" | "ris.sub" | "ris.add_assign" | "ris.sub_assign" => {
+            let a = ris_arg(ctx, inp(e, 0)?)?;
+            let b = ris_arg(ctx, inp(e, 1)?)?;
+            let r = match op {
+                "ris.add" => &a + &b,
+                "ris.sub" => &a - &b,
+                "ris.add_assign" => { let mut t = a; t += &b; t }
+                _ => { let mut t = a; t -= &b; t }
+            };
+            set_ris(ctx, e, r)
+        }
+        "ris.neg" | "ris.copy" => {
+            let a = ris_arg(ctx, inp(e, 0)?)?;
+            set_ris(ctx, e, if op == "ris.neg" { -&a } else { a })
+        }
+        "ris.sum" => {
+            let ps = ris_points(ctx, &e["in"])?;
+            set_ris(ctx, e, ps.iter().sum())
+        }
+        "ris.torsion_translate" => {
+            // another internal representative of the same element: add a 4-torsion point (hook)
+            let a = ris_arg(ctx, inp(e, 0)?)?;
+            let t = curve25519_dalek::constants::EIGHT_TORSION[(2 * uint(e, "k")? as usize) % 8];
+            let r = hook::ristretto_from_edwards(&(hook::ristretto_as_edwards(&a) + t));
+            set_ris(ctx, e, r)
+        }
+        "ris.cond_select" => {
+            use subtle::ConditionallySelectable;
+            let a = ris_arg(ctx, inp(e, 0)?)?;
+            let b = ris_arg(ctx, inp(e, 1)?)?;
+            set_ris(ctx, e, RistrettoPoint::conditional_select(&a, &b, subtle::Choice::from(flag(e, "c")? as u8)))
+        }
+        "ris.mul" | "ris.mul_rev" | "ris.mul_assign" => {
+            let a = ris_arg(ctx, inp(e, 0)?)?;
+            let s = sc_arg(ctx, inp(e, 1)?)?;
+            let r = match op {
+                "ris.mul" => &a * &s,
+                "ris.mul_rev" => &s * &a,
+                _ => { let mut t = a; t *= &s; t }
+            };
+            let mut o = set_ris(ctx, e, r)?;
+            o["s"] = jbytes(&s.to_bytes());
+            Ok(o)
+        }
+        "ris.mul_base" => {
+            let s = sc_arg(ctx, inp(e, 0)?)?;
+            let r = RistrettoPoint::mul_base(&s);
+            #[cfg(feature = "tables")]
+            {
+                let t = &s * curve25519_dalek::constants::RISTRETTO_BASEPOINT_TABLE;
+                if t != r {
+                    panic!("RISTRETTO_BASEPOINT_TABLE disagrees with mul_base");
+                }
+            }
+            let mut o = set_ris(ctx, e, r)?;
+            o["s"] = jbytes(&s.to_bytes());
+            Ok(o)
+        }
+        "ris.vartime_double_scalar_mul_basepoint" => {
+            let a = sc_arg(ctx, inp(e, 0)?)?;
+            let p = ris_arg(ctx, inp(e, 1)?)?;
+            let b = sc_arg(ctx, inp(e, 2)?)?;
+            let mut o = set_ris(ctx, e, RistrettoPoint::vartime_double_scalar_mul_basepoint(&a, &p, &b))?;
+            o["a"] = jbytes(&a.to_bytes());
+            o["b"] = jbytes(&b.to_bytes());
+            Ok(o)
+        }
+        "ris.multiscalar_mul" | "ris.vartime_multiscalar_mul" | "ris.optional_multiscalar_mul" => {
+            let ss = scalars_of(ctx, &e["scalars"])?;
+            let r = if op == "ris.optional_multiscalar_mul" {
+                let ps: Result<Vec<Option<RistrettoPoint>>, String> = e["points"].as_array().ok_or("points")?.iter().map(|x| {
+                    match ctx.get(x.as_str().unwrap_or(""))? { Reg::Ris(p) => Ok(Some(*p)), Reg::None => Ok(None), _ => Err("bad reg".to_string()) }
+                }).collect();
+                RistrettoPoint::optional_multiscalar_mul(ss.iter(), ps?.into_iter())
+            } else {
+                let ps = ris_points(ctx, &e["points"])?;
+                Some(if op == "ris.multiscalar_mul" { RistrettoPoint::multiscalar_mul(ss.iter(), ps.iter()) } else { RistrettoPoint::vartime_multiscalar_mul(ss.iter(), ps.iter()) })
+            };
+            let mut o = set_ris_opt(ctx, e, r)?;
+            o["ss"] = sc_bytes(&ss);
+            Ok(o)
+        }
+        "ris.compress" => {
+            let a = ris_arg(ctx, inp(e, 0)?)?;
+            Ok(json!({"r": ris_obs(&a)}))
+        }
+        "ris.eq" => {
+            let a = ris_arg(ctx, inp(e, 0)?)?;
+            let b = ris_arg(ctx, inp(e, 1)?)?;
+            let ct: bool = a.ct_eq(&b).into();
+            Ok(json!({"ok": a == b, "ct": ct, "cc": a.compress() == b.compress()}))
+        }
+        "ris.double_and_compress_batch" => {
+            let ps = ris_points(ctx, &e["in"])?;
+            let r = RistrettoPoint::double_and_compress_batch(ps.iter());
+            Ok(json!({"rs": r.iter().map(|c| jbytes(c.as_bytes())).collect::<Vec<_>>()}))
+        }
+        // ================= Ed25519 ====================================================
+        "sig.keygen" => {
+            // seed -> signing key; every view of the key pair
+            let seed = arr32(inp(e, 0)?)?;
+            let sk = SigningKey::from_bytes(&seed);
+            let sk2 = SigningKey::from(seed);
+            let sk3 = SigningKey::try_from(&seed[..]).map_err(|_| "TryFrom failed")?;
+            if sk != sk2 || sk != sk3 {
+                panic!("SigningKey constructors disagree");
+            }
+            let vk = sk.verifying_key();
+            let vk2 = VerifyingKey::from(&sk);
+            let esk = ed25519_dalek::hazmat::ExpandedSecretKey::from(&seed);
+            let vk3 = VerifyingKey::from(&esk);
+            if vk != vk2 || vk != vk3 || sk.as_ref() != &vk {
+                panic!("verifying key views disagree");
+            }
+            Ok(json!({"pk": jbytes(vk.as_bytes()), "sk": jbytes(&sk.to_bytes()), "kp": jbytes(&sk.to_keypair_bytes()),
+                      "scalar_bytes": jbytes(&sk.to_scalar_bytes()), "scalar": jbytes(&sk.to_scalar().to_bytes()),
+                      "mont": jbytes(vk.to_montgomery().as_bytes()), "weak": vk.is_weak()}))
+        }
+        "sig.from_keypair_bytes" => {
+            let b = arr64(inp(e, 0)?)?;
+            let r = SigningKey::from_keypair_bytes(&b);
+            Ok(json!({"ok": res_ok(&r), "pk": r.map(|k| jbytes(k.verifying_key().as_bytes())).unwrap_or(json!([]))}))
+        }
+        "sig.sk_from_slice" => {
+            let b = bytes_of(inp(e, 0)?)?;
+            let r = SigningKey::try_from(&b[..]);
+            let x = ed25519_dalek::hazmat::ExpandedSecretKey::from_slice(&b);
+            let x2 = ed25519_dalek::hazmat::ExpandedSecretKey::try_from(&b[..]);
+            Ok(json!({"ok": res_ok(&r), "esk_ok": res_ok(&x), "esk_ok2": res_ok(&x2)}))
+        }
+        "sig.sign" => {
+            // in = [seed, message]; pure Ed25519 through every signing path
+            let seed = arr32(inp(e, 0)?)?;
+            let m = bytes_of(inp(e, 1)?)?;
+            let sk = SigningKey::from_bytes(&seed);
+            let s1 = sk.sign(&m);
+            let s2 = sk.try_sign(&m).map_err(|_| "try_sign failed")?;
+            let esk = ed25519_dalek::hazmat::ExpandedSecretKey::from(&seed);
+            let s3 = ed25519_dalek::hazmat::raw_sign::<Sha512>(&esk, &m, &sk.verifying_key());
+            if s1 != s2 || s1 != s3 {
+                panic!("signing paths disagree");
+            }
+            Ok(json!({"sig": jbytes(&s1.to_bytes()), "pk": jbytes(sk.verifying_key().as_bytes())}))
+        }
+        "sig.sign_expanded" => {
+            // in = [64-byte expanded key, message]: hazmat signing with an arbitrary expanded key
+            let h = arr64(inp(e, 0)?)?;
+            let m = bytes_of(inp(e, 1)?)?;
+            let esk = ed25519_dalek::hazmat::ExpandedSecretKey::from_bytes(&h);
+            let vk = VerifyingKey::from(&esk);
+            let s = ed25519_dalek::hazmat::raw_sign::<Sha512>(&esk, &m, &vk);
+            Ok(json!({"sig": jbytes(&s.to_bytes()), "pk": jbytes(vk.as_bytes())}))
+        }
+        "sig.sign_prehashed" => {
+            // in = [seed, message, context]; "noctx": true passes None
+            let seed = arr32(inp(e, 0)?)?;
+            let m = bytes_of(inp(e, 1)?)?;
+            let c = bytes_of(inp(e, 2)?)?;
+            let noctx = flag(e, "noctx").unwrap_or(false);
+            let sk = SigningKey::from_bytes(&seed);
+            let ph = || Sha512::new().chain_update(&m);
+            let r1 = sk.sign_prehashed(ph(), if noctx { None } else { Some(&c[..]) });
+            let esk = ed25519_dalek::hazmat::ExpandedSecretKey::from(&seed);
+            let r2 = ed25519_dalek::hazmat::raw_sign_prehashed::<Sha512, Sha512>(&esk, ph(), &sk.verifying_key(), if noctx { None } else { Some(&c[..]) });
+            if r1.is_ok() != r2.is_ok() || (r1.is_ok() && r1.as_ref().unwrap() != r2.as_ref().unwrap()) {
+                panic!("prehashed signing paths disagree");
+            }
+            // the Context / DigestSigner path
+            let wc = sk.with_context(&c);
+            let ctx_ok = wc.is_ok();
+            let mut s3 = json!([]);
+            if let Ok(wc) = wc {
+                use ed25519_dalek::DigestSigner;
+                if let Ok(s) = wc.try_sign_digest(ph()) {
+                    s3 = jbytes(&s.to_bytes());
+                }
+            }
+            Ok(json!({"ok": r1.is_ok(), "sig": r1.map(|s| jbytes(&s.to_bytes())).unwrap_or(json!([])), "ctx_ok": ctx_ok, "sig_ctx": s3,
+                      "pk": jbytes(sk.verifying_key().as_bytes())}))
+        }
+        "sig.verify" => {
+            // in = [public key bytes, message, signature bytes(64), context]; every verification variant
+            let pk = arr32(inp(e, 0)?)?;
+            let m = bytes_of(inp(e, 1)?)?;
+            let sb = bytes_of(inp(e, 2)?)?;
+            let c = bytes_of(inp(e, 3)?)?;
+            let vk = VerifyingKey::from_bytes(&pk);
+            let vk2 = VerifyingKey::try_from(&pk[..]);
+            if vk.is_ok() != vk2.is_ok() {
+                panic!("VerifyingKey::from_bytes and TryFrom disagree");
+            }
+            let sig = Signature::from_slice(&sb);
+            let (vk, sig) = match (vk, sig) {
+                (Ok(v), Ok(s)) => (v, s),
+                (v, s) => return Ok(json!({"key_ok": v.is_ok(), "sig_ok": s.is_ok()})),
+            };
+            let ph = || Sha512::new().chain_update(&m);
+            let short = c.len() <= 255;
+            let mut o = json!({"key_ok": true, "sig_ok": true,
+                "verify": vk.verify(&m, &sig).is_ok(),
+                "verify2": Verifier::verify(&vk, &m, &sig).is_ok(),
+                "strict": vk.verify_strict(&m, &sig).is_ok(),
+                "raw": ed25519_dalek::hazmat::raw_verify::<Sha512>(&vk, &m, &sig).is_ok(),
+                "weak": vk.is_weak(),
+                "pk_edwards": jbytes(vk.to_edwards().compress().as_bytes()),
+            });
+            if short {
+                o["ph"] = json!(vk.verify_prehashed(ph(), Some(&c), &sig).is_ok());
+                o["ph_strict"] = json!(vk.verify_prehashed_strict(ph(), Some(&c), &sig).is_ok());
+                o["ph_raw"] = json!(ed25519_dalek::hazmat::raw_verify_prehashed::<Sha512, Sha512>(&vk, ph(), Some(&c), &sig).is_ok());
+                o["ph_none"] = json!(vk.verify_prehashed(ph(), None, &sig).is_ok());
+                if let Ok(wc) = vk.with_context(&c) {
+                    use ed25519_dalek::DigestVerifier;
+                    o["ph_ctx"] = json!(wc.verify_digest(ph(), &sig).is_ok());
+                }
+            } else {
+                o["ctx_refused"] = json!(vk.with_context(&c).is_err());
+            }
+            Ok(o)
+        }
+        "sig.verify_batch" => {
+            // entries: [[pk, msg, sig], ...]; optional "lens": [n_msgs, n_sigs, n_keys] to truncate the slices
+            let ents = e["entries"].as_array().ok_or("entries")?;
+            let mut msgs: Vec<Vec<u8>> = Vec::new();
+            let mut sigs = Vec::new();
+            let mut keys = Vec::new();
+            for x in ents {
+                let pk = arr32(&x[0])?;
+                msgs.push(bytes_of(&x[1])?);
+                sigs.push(Signature::from_bytes(&arr64(&x[2])?));
+                match VerifyingKey::from_bytes(&pk) {
+                    Ok(k) => keys.push(k),
+                    Err(_) => return Ok(json!({"key_ok": false})),
+                }
+            }
+            let mut mrefs: Vec<&[u8]> = msgs.iter().map(|m| &m[..]).collect();
+            if let Some(l) = e["lens"].as_array() {
+                mrefs.truncate(l[0].as_u64().unwrap_or(0) as usize);
+                sigs.truncate(l[1].as_u64().unwrap_or(0) as usize);
+                keys.truncate(l[2].as_u64().unwrap_or(0) as usize);
+            }
+            let r1 = ed25519_dalek::verify_batch(&mrefs, &sigs, &keys).is_ok();
+            let r2 = ed25519_dalek::verify_batch(&mrefs, &sigs, &keys).is_ok();
+            Ok(json!({"key_ok": true, "ok": r1, "again": r2}))
         }
         _ => Err(format!("unknown op {op}")),
     }
